@@ -273,4 +273,44 @@ Qed.
 
 Theorem sim_run ops : run I ops = run J ops.
 Proof. apply sim_run_from, sim_init. Qed.
+
+Lemma sim_final_from ops : forall st st', sim st st' -> sim (final_from I st ops) (final_from J st' ops).
+Proof.
+  induction ops as [|o ops IH]; intros st st' S; cbn [final_from]; auto.
+  apply IH. now apply sim_step.
+Qed.
+
+Lemma sim_final ops : sim (final I ops) (final J ops).
+Proof. apply sim_final_from, sim_init. Qed.
+
+(* when related receivers are parked together, every operation wakes the same subscribers *)
+Section Woken.
+Hypothesis Hwait : forall st st', sim st st' -> forall s, parked_in I st s = parked_in J st' s.
+
+Lemma sim_woken_by st st' o : sim st st' -> woken_by I st o = woken_by J st' o.
+Proof.
+  intros S. unfold woken_by.
+  assert (Len : length (subs st) = length (subs st')).
+  { destruct S as (_ & _ & HR & _). apply Hshape in HR.
+    rewrite <- (map_length livef (subs st)), HR. apply map_length. }
+  rewrite Len. apply filter_ext. intros s.
+  rewrite (Hwait _ _ S s). destruct (sim_step st st' o S) as [_ S'].
+  now rewrite (Hwait _ _ S' s).
+Qed.
+
+Theorem sim_parked ops s : parked I ops s = parked J ops s.
+Proof. apply Hwait, sim_final. Qed.
+
+Theorem sim_woken ops o : woken I ops o = woken J ops o.
+Proof. apply sim_woken_by, sim_final. Qed.
+
+Lemma sim_wakes_from ops : forall st st', sim st st' -> wakes_from I st ops = wakes_from J st' ops.
+Proof.
+  induction ops as [|o ops IH]; intros st st' S; cbn [wakes_from]; auto.
+  rewrite (sim_woken_by _ _ o S). f_equal. apply IH. now apply sim_step.
+Qed.
+
+Theorem sim_wakes ops : wakes I ops = wakes J ops.
+Proof. apply sim_wakes_from, sim_init. Qed.
+End Woken.
 End Sim.
